@@ -166,6 +166,7 @@ func stagedSuite(maxLen, seqLen int, withStart bool) hlib.Suite {
 				direct[i] = f(t0.Add(t))
 				r.Eval()
 				input := fmt.Sprintf("stages=%q start-given=%v query at +%s", str, withStart, t)
+				r.SampleCase(input)
 				rv := ref(l, t)
 				checkValue(r, "staged", input, rv, direct[i])
 				r.Distinct(fmt.Sprintf("stage=%d over=%v dir=%d", rv.stage, rv.over, sign(rv.b-rv.a)))
